@@ -189,8 +189,25 @@ def witness_text(w):
     return ", ".join("%s=%s" % (k, v) for k, v in w.items())
 
 
-def feasible(envs, facts):
-    return [e for e in envs if e.holds(facts) is True]
+class feasible:
+    """The instances of ``envs`` on which every fact of the trace holds (computed on first use)."""
+
+    def __init__(self, envs, facts):
+        self._envs, self._facts, self._val = envs, facts, None
+
+    def _get(self):
+        if self._val is None:
+            self._val = [e for e in self._envs if e.holds(self._facts) is True]
+        return self._val
+
+    def __iter__(self):
+        return iter(self._get())
+
+    def __getitem__(self, i):
+        return self._get()[i]
+
+    def __len__(self):
+        return len(self._get())
 
 
 def loop_envs(env, loops):
@@ -210,6 +227,14 @@ def loop_envs(env, loops):
                 nxt.append(Env(ints, e.vecs))
         out = nxt
     return out
+
+
+def nonvacuous(ctx, rule, construct, loc, envs):
+    """The facts of the analysed trace are satisfiable (otherwise every proof on it would be vacuous)."""
+    n = len(envs)
+    ctx.check(True if n else None, rule, construct + ":feasible-trace", "%d grid instances satisfy the guards of this trace" % n,
+              "no grid instance satisfies the guards of this trace (dead or over-constrained path)", loc)
+    return n > 0
 
 
 def eq_lin(ctx, rule, construct, loc, got, want, facts, envs, what, loops=None):
@@ -409,6 +434,7 @@ def rule_r1(ctx, repo):
             s, ret = rets[0]
             yt, Xt = ret.items
             envs = feasible(grid(with_X), s.facts)
+            nonvacuous(ctx, "R1", tag, loc, envs)
             check_transform_output(ctx, "R1", tag, loc, yt, Xt, scitype, with_X, W, Vec("fh"), s.facts, envs)
             # feasibility guard: row range non-empty, and no feasible configuration rejected
             rows = N - W - FHL + 1
@@ -551,6 +577,7 @@ def rule_reducers(ctx, repo, classes):
                 continue
             facts = run.fit_facts
             envs = feasible(grid(with_X), facts)
+            nonvacuous(ctx, "R2", tag, loc_fit, envs)
             w_attr = as_lin_val(run.selfv.attrs.get("window_length_"))
             eq_lin(ctx, "R3", tag + ":window_length_", loc_fit, w_attr, W, facts, envs, "window_length_ after fit")
             if strat == "direct":
@@ -1350,8 +1377,9 @@ def run(ctx):
     rule_r1(ctx, repo)
     rule_last_window(ctx, repo)
     rule_reducers(ctx, repo, classes)
-    ctx.floor("R1", 40)
-    ctx.floor("R2", 60)
-    ctx.floor("R3", 30)
-    ctx.floor("R4", 40)
-    ctx.floor("R5", 15)
+    # instance counts on commit 132f3d5 (+ fix 7857d98): R1 50, R2 170, R3 80, R4 124, R5 18
+    ctx.floor("R1", 48)
+    ctx.floor("R2", 150)
+    ctx.floor("R3", 70)
+    ctx.floor("R4", 110)
+    ctx.floor("R5", 18)
